@@ -619,58 +619,4 @@ theorem read31_cost (b : Bytes) (pos : Nat)
   omega
 
 
-/-! ## readGposSubtable -/
-
-/-- `readGposSubtable` (lookup types 1–3), all formats together: with `N` the `pairSetCount` of a
-format 2.1 subtable (`N = 0` for the other formats)
-`steps ≤ N·(19·(|b|/2) + 4) + 4·(|b|/2) + 1441781`, `alloc ≤ N·(5·(|b|/2) + 2) + 3·(|b|/4) + 589822` -/
-theorem readSubtable_cost (b : Bytes) (pos tp : Nat) (r : Sub) (c : Cost)
-    (h : readSubtable b pos tp = .ok (r, c)) :
-    ∃ N, N < 65536 ∧ 2 * N ≤ b.length ∧
-      c.steps ≤ N * (19 * (b.length / 2) + 4) + 4 * (b.length / 2) + 1441781 ∧
-      c.alloc ≤ N * (5 * (b.length / 2) + 2) + 3 * (b.length / 4) + 589822 := by
-  unfold readSubtable at h
-  obtain ⟨format, _, h⟩ := bind_eq_ok h
-  dsimp only at h
-  split at h
-  · cases h
-  unfold dispatchKey at h
-  split at h
-  · obtain ⟨x, hx, h⟩ := bind_eq_ok h
-    obtain ⟨x1, x2⟩ := x
-    have := read11_cost _ _ _ _ hx
-    cases h
-    exact ⟨0, by omega, by omega, by simp only [Cost.tick]; omega, by simp only [Cost.tick]; omega⟩
-  split at h
-  · obtain ⟨x, hx, h⟩ := bind_eq_ok h
-    obtain ⟨x1, x2⟩ := x
-    have := read12_cost _ _ _ _ hx
-    cases h
-    exact ⟨0, by omega, by omega, by simp only [Cost.tick]; omega, by simp only [Cost.tick]; omega⟩
-  split at h
-  · obtain ⟨x, hx, h⟩ := bind_eq_ok h
-    obtain ⟨x1, x2⟩ := x
-    obtain ⟨N, h1, h2, h3, h4⟩ := read21_cost_n _ _ _ _ hx
-    cases h
-    refine ⟨N, h1, h2, ?_, ?_⟩
-    · simp only [Cost.tick]
-      generalize N * (19 * (b.length / 2) + 4) = X at *
-      omega
-    · simp only [Cost.tick]
-      generalize N * (5 * (b.length / 2) + 2) = X at *
-      omega
-  split at h
-  · obtain ⟨x, hx, h⟩ := bind_eq_ok h
-    obtain ⟨x1, x2⟩ := x
-    have := read22_cost _ _ _ _ hx
-    cases h
-    exact ⟨0, by omega, by omega, by simp only [Cost.tick]; omega, by simp only [Cost.tick]; omega⟩
-  split at h
-  · obtain ⟨x, hx, h⟩ := bind_eq_ok h
-    obtain ⟨x1, x2⟩ := x
-    have := read31_cost _ _ _ _ hx
-    cases h
-    exact ⟨0, by omega, by omega, by simp only [Cost.tick]; omega, by simp only [Cost.tick]; omega⟩
-  split at h <;> cases h
-
 end SfntV.Total.GposSub
